@@ -36,6 +36,11 @@ var solvers = map[string]solverSpec{
 	"cvc5": {"cvc5", func(t int, f string) []string {
 		return []string{fmt.Sprintf("--tlimit=%d", t*1000), "--strings-exp", "--produce-models", f}
 	}},
+	// cvc5 with enumerative quantifier instantiation: finds witnesses that are ground terms of
+	// the goal (e.g. the index len(result) for an element just appended)
+	"cvc5-enum": {"cvc5", func(t int, f string) []string {
+		return []string{fmt.Sprintf("--tlimit=%d", t*1000), "--strings-exp", "--produce-models", "--full-saturate-quant", f}
+	}},
 }
 
 func (ob *Obligation) smt(withModel bool) string { return ob.smtOpt(withModel, false) }
@@ -98,8 +103,12 @@ func (ob *Obligation) smtOpt(withModel bool, relaxed bool) string {
 }
 
 func runSolver(name string, timeoutS int, file string) (status, out string, secs float64) {
+	return runSolverCtx(context.Background(), name, timeoutS, file)
+}
+
+func runSolverCtx(parent context.Context, name string, timeoutS int, file string) (status, out string, secs float64) {
 	sp := solvers[name]
-	ctx, cancel := context.WithTimeout(context.Background(), time.Duration(timeoutS+5)*time.Second)
+	ctx, cancel := context.WithTimeout(parent, time.Duration(timeoutS+5)*time.Second)
 	defer cancel()
 	cmd := exec.CommandContext(ctx, sp.name, sp.args(timeoutS, file)...)
 	var buf bytes.Buffer
@@ -209,19 +218,28 @@ func (s *Solver) solve(ob *Obligation) {
 		name, st, out string
 		secs          float64
 	}
-	rc := make(chan r, 2)
-	for _, n := range []string{"cvc5", "z3"} {
+	racers := []string{"cvc5", "z3"}
+	if hasQuant(text) {
+		racers = append(racers, "cvc5-enum")
+	}
+	rc := make(chan r, len(racers))
+	rctx, rcancel := context.WithCancel(context.Background())
+	for _, n := range racers {
 		go func(n string) {
-			st, out, secs := runSolver(n, s.slowS, file)
+			st, out, secs := runSolverCtx(rctx, n, s.slowS, file)
 			rc <- r{n, st, out, secs}
 		}(n)
 	}
 	var results []r
-	for i := 0; i < 2; i++ {
+	for i := 0; i < len(racers); i++ {
 		x := <-rc
 		results = append(results, x)
 		res.Outputs[x.name] = trimOut(x.out)
+		if x.st == want {
+			break // first answer of the wanted kind wins; the others are stopped
+		}
 	}
+	rcancel()
 	for _, x := range results {
 		if x.st == want {
 			res.Status, res.Backend, res.Seconds = x.st, x.name, total+x.secs
